@@ -228,6 +228,74 @@ pub fn run(rep: &mut Rep) {
             }
         }
     }
+    // an identifier that became free when its exchange failed (PUBREC / PUBACK with reason >= 0x80) is handed out again after
+    // the counter has wrapped; the connection is then lost and the session resumed: the finished exchange must not come
+    // back under the identifier its successor now uses
+    rep.note("failed exchange, wrap, resumption: a QoS 2 publish refused by PUBREC (or a QoS 1 publish refused by PUBACK) with reason 0x80 / 0x97, the identifier counter advanced to one allocation before that identifier (hook H2; once with 65 535 real acknowledged publishes), a new publish left unacknowledged under the same identifier, the connection lost and the session resumed: no two exchanges on the resumed connection may share an identifier");
+    for first_q2 in [true, false] {
+        for ridx in [2usize, 7] {
+            for second_q2 in [false, true] {
+                for base in [1u16, 300, 65535] {
+                    let id = format!("refused-wrap-resume:{}:{ridx}:{}:{base}", first_q2 as u8, second_q2 as u8);
+                    idx += 1;
+                    if !rep.take(idx, &id) {
+                        continue;
+                    }
+                    let mut w = World::boot(WorldCfg { seed: rep.seed, sei: Some(3600), seed_ids: Some((base.wrapping_sub(1), 5)), ..Default::default() });
+                    let a = w.start(0, if first_q2 { Kind::Pub2 } else { Kind::Pub1 });
+                    w.settle_check();
+                    let Some(aid) = w.m[a].pkt_id else { continue };
+                    w.deliver_ack(a, 1, ridx, 0);
+                    w.settle_check();
+                    // one allocation before the wrap reaches `aid` again
+                    if let Some(h) = w.sim.handles[0].as_ref() {
+                        h.verif_seed_ids(aid.wrapping_sub(3), 50);
+                    }
+                    let mut reused = false;
+                    for _ in 0..6 {
+                        let b = w.start(1, if second_q2 { Kind::Pub2 } else { Kind::Pub1 });
+                        w.settle_check();
+                        if w.m[b].pkt_id == Some(aid) {
+                            reused = true;
+                            break;
+                        }
+                        w.deliver_ack(b, 1, 0, 0);
+                        w.settle_check();
+                        if second_q2 {
+                            w.deliver_ack(b, 2, 0, 0);
+                            w.settle_check();
+                        }
+                    }
+                    if reused {
+                        rep.add("identifiers_reused_after_a_failed_exchange", 1);
+                    }
+                    w.eof();
+                    w.settle_check();
+                    let resumed = w.resume_full(ResumeOpts { secs_ago: 1, sei: Some(3600), ..Default::default() });
+                    w.settle_check();
+                    if resumed && !w.blind {
+                        for _ in 0..4 {
+                            let Some(&(i, st)) = w.ackable().first() else { break };
+                            w.deliver_ack(i, st, 0, 0);
+                            w.settle_check();
+                        }
+                    }
+                    super::script::finish(&mut w);
+                    rep.add("evaluations", 1);
+                    rep.add("failed_exchange_wrap_resume_cases", 1);
+                    rep.distinct(&("refused-wrap-resume", first_q2, ridx, second_q2, base));
+                    if harvest(rep, &mut w, &id) == 0 {
+                        rep.sample(|| format!("{id}: identifier {aid} failed, reused = {reused}, session resumed with distinct identifiers"));
+                    }
+                    add_counters(rep, &w);
+                }
+            }
+        }
+    }
+    idx += 1;
+    if rep.take(idx, "refused-wrap-resume:real") {
+        real_wrap_after_failed_exchange(rep, "refused-wrap-resume:real");
+    }
     // small Receive Maximum: publishes refused for quota (their identifier never reaches the wire) interleaved with
     // other identifier-consuming operations whose futures are polled late
     let wa = Alpha {
@@ -273,4 +341,82 @@ pub fn run(rep: &mut Rep) {
         }
     }
     let _ = Prop::byte(1, 1);
+}
+
+/// The same history without the hook: 65 535 acknowledged QoS 1 publishes bring the counter back to the identifier of the
+/// failed QoS 2 exchange.
+fn real_wrap_after_failed_exchange(rep: &mut Rep, id: &str) {
+    use crate::sim::{Cmd, Sim};
+    use crate::spec::{ConnSpec, OpSpec, PubSpec};
+    let mut sim = Sim::new(rep.seed);
+    sim.log_enabled = false;
+    sim.cmd(Cmd::Connect(ConnSpec { sei: Some(3600), ..Default::default() }));
+    sim.settle();
+    sim.feed_packet(&SPacket::Connack { session_present: false, reason: 0, props: vec![] });
+    sim.settle();
+    sim.cmd(Cmd::Run);
+    sim.settle();
+    sim.parse_wire();
+    let last_id = |sim: &mut Sim, before: usize| -> Option<u16> {
+        sim.parse_wire();
+        sim.wire[before..].iter().find_map(|w| match &w.pkt { Ok(CPacket::Publish(p)) => p.id, _ => None })
+    };
+    let before = sim.wire.len();
+    sim.start_op(0, OpSpec::Publish(PubSpec::simple(2, "first", b"a")));
+    sim.settle();
+    let Some(aid) = last_id(&mut sim, before) else { return };
+    sim.feed_packet(&SPacket::Ack { kind: AckKind::Pubrec, id: aid, reason: 0x97, props: vec![], form: AckForm::Short3 });
+    sim.settle();
+    let mut allocated = 0usize;
+    let mut reused = false;
+    for j in 0..70_000usize {
+        let before = sim.wire.len();
+        sim.start_op(0, OpSpec::Publish(PubSpec::simple(1, "w", b"b")));
+        sim.settle();
+        let Some(pid) = last_id(&mut sim, before) else { break };
+        allocated += 1;
+        if pid == aid {
+            reused = true;
+            break;
+        }
+        sim.feed_packet(&SPacket::Ack { kind: AckKind::Puback, id: pid, reason: 0, props: vec![], form: AckForm::Short2 });
+        sim.settle();
+        // keep the harness's own bookkeeping small
+        if j % 4096 == 4095 {
+            sim.wire.clear();
+        }
+    }
+    rep.add("evaluations", 1);
+    rep.add("id_consuming_operations", allocated as i64);
+    if !reused {
+        rep.add("real_wrap_cases_not_reaching_reuse", 1);
+        return;
+    }
+    sim.set_eof();
+    sim.settle();
+    sim.cmd(Cmd::MarkDisconnected(1));
+    sim.new_transport();
+    sim.cmd(Cmd::Connect(ConnSpec { sei: Some(3600), ..Default::default() }));
+    sim.settle();
+    sim.feed_packet(&SPacket::Connack { session_present: true, reason: 0, props: vec![] });
+    sim.settle();
+    sim.parse_wire();
+    let after = sim.wire.len();
+    sim.cmd(Cmd::Run);
+    sim.settle();
+    sim.parse_wire();
+    let ids: Vec<u16> = sim.wire[after..].iter().filter_map(|w| match &w.pkt { Ok(CPacket::Publish(p)) if p.qos > 0 => p.id, Ok(CPacket::Ack(a)) if a.kind == AckKind::Pubrel => Some(a.id), _ => None }).collect();
+    rep.add("real_wraps_after_a_failed_exchange", 1);
+    rep.add("identifiers_reused_after_a_failed_exchange", 1);
+    let mut sorted = ids.clone();
+    sorted.sort();
+    sorted.dedup();
+    for p in sim.panics.clone() {
+        rep.violation(&format!("C11/panic/{p}"), id, &format!("panic: {p}"));
+    }
+    if sorted.len() != ids.len() {
+        rep.violation("C11/duplicate-packet-id/resent", id, &format!("identifier {aid}: QoS 2 exchange refused by PUBREC 0x97, {allocated} allocations later a QoS 1 publish carries it again and is unacknowledged when the connection is lost; the resumed connection carries exchanges with identifiers {:?}", ids));
+    } else {
+        rep.sample(|| format!("{id}: identifier {aid} reused after {allocated} allocations; resumed connection carries identifiers {:?}", ids));
+    }
 }
